@@ -331,9 +331,10 @@ class ShelfCreator:
                 if kind is None:
                     to_transform.create_file([b""], s_trans_id)
                 else:
-                    transform.create_from_tree(
-                        to_transform, s_trans_id, tree, tree.id2path(file_id)
-                    )
+                    path = tree.id2path(file_id)
+                    transform.create_from_tree(to_transform, s_trans_id, tree, path)
+                    if kind == "file" and tree.is_executable(path):
+                        to_transform.set_executability(True, s_trans_id)
         if version:
             to_transform.version_file(s_trans_id, file_id=file_id)
 
